@@ -26,6 +26,7 @@ enum { W_NONE = 0, W_SPIN, W_IDLE, W_JOIN, W_SLEEP, W_MUTEX, W_COND, W_DONE };
 enum { MAXT = 32, NWATCH = 12, MAXMTX = 64, MAXPOISON = 64 };
 const uint64_t FAR = 9ull * 1000 * 1000;       // deadlines >= now+9s count as "never" (idle vCPU with no sleeper)
 const uint64_t NEVER = ~0ull;
+const uint32_t FAIR_N = 4000;
 
 struct Watch { uintptr_t pc, addr; uint64_t val; uint8_t size, count; uint32_t seen; };
 
@@ -34,7 +35,7 @@ struct Th {
     Watch w[NWATCH]; int nw; bool spinning_forced;
     mv_idle_cell* cell; uint64_t deadline; int join_target; void* obj; bool signaled;
     pthread_t pth; void* (*start)(void*); void* arg; void* ret; volatile bool done; bool yielding;
-    char name[24]; void* stack; uint32_t ops;
+    char name[24]; void* stack; uint32_t ops; uint32_t consec;
 };
 
 Th TH[MAXT]; int NT = 0;
@@ -112,10 +113,13 @@ void schedule(Th* me, const char* what, uintptr_t addr, bool exiting = false) {
     for (;;) {
         Th* list[MAXT]; int n = 0;
         bool me_enabled = !exiting && is_enabled(me);
-        if (me_enabled && !me->yielding) list[n++] = me;
+        // fairness of the default schedule: a thread that kept the baton for FAIR_N consecutive points while others could
+        // run (a polling loop the spin detector does not recognise) is treated as yielding at this decision
+        bool unfair = me->consec > FAIR_N;
+        if (me_enabled && !me->yielding && !unfair) list[n++] = me;
         // others: round robin starting after me
         for (int k = 1; k < NT; k++) { Th* t = &TH[(me->id + k) % NT]; if (t != me && t->wait != W_DONE && is_enabled(t)) list[n++] = t; }
-        if (me_enabled && me->yielding) list[n++] = me;
+        if (me_enabled && (me->yielding || unfair)) list[n++] = me;
         if (n == 0) {
             // time passes: earliest near deadline
             uint64_t d = NEVER;
@@ -145,7 +149,8 @@ void schedule(Th* me, const char* what, uintptr_t addr, bool exiting = false) {
         }
         Th* next = list[idx];
         for (int i = 0; i < NT; i++) TH[i].spinning_forced = false;
-        if (next == me) return;
+        if (next == me) { if (n > 1) me->consec++; return; }
+        me->consec = 0; next->consec = 0;
         give_baton(next);
         if (exiting) return;
         wait_baton(me);
